@@ -151,6 +151,10 @@ PRINT_ISO = [
     ("CCYYWwwDThhmmssZ", "basic", "CCYYWwwD", "w", "hhmmss", ("Z", (0, 0))),
 ]
 PRINT_STRFTIME = ["%Y-%m-%dT%H:%M:%S%z", "%j/%Y %X", "%s", "%d.%m.%Y", "%F %H%M"]
+# directives outside the library's own subset: the CLI falls back to the
+# datetime library (documented; Gregorian only)
+PRINT_STRFTIME_EXT = ["%d %b %Y", "%a %Y-%m-%d %H:%M", "%y%m%d", "%A %d %B %Y",
+                      "%Y/%m/%d %I%p"]
 
 
 def expected_print(cm, kw, pr):
@@ -158,6 +162,12 @@ def expected_print(cm, kw, pr):
     if pr["kind"] == "strftime":
         from vlib.checks import c17
         return c17.posix(cm, kw, pr["fmt"])
+    if pr["kind"] == "strftime_ext":
+        import datetime
+        from vlib.checks import c17
+        c = c17.civil(cm, RC.normalise24(cm, kw))
+        return datetime.datetime(c["Y"], c["m"], c["d"], c["H"], c["M"],
+                                 c["S"]).strftime(pr["fmt"])
     fmt, notation, dexpr, rep_, texpr, zone = PRINT_ISO[pr["i"]]
     spec = {"notation": notation, "dexpr": dexpr, "rep": rep_, "texpr": texpr,
             "zexpr": "-", "frac": None}
@@ -504,9 +514,13 @@ def st_shift(draw):
     if (arg["frac"] is None and "X" not in arg["dexpr"] and "YY" in arg["dexpr"]
             and arg["time"] is not None and arg["time"].get("hour") != 24
             and draw(st.integers(0, 3)) == 0):
-        if draw(st.booleans()):
+        k3 = draw(st.integers(0, 2))
+        if k3 == 0:
             i = draw(st.integers(0, len(PRINT_ISO) - 1))
             pr = {"kind": "iso", "i": i, "fmt": PRINT_ISO[i][0]}
+        elif k3 == 1 and cm == "gregorian":
+            pr = {"kind": "strftime_ext",
+                  "fmt": draw(st.sampled_from(PRINT_STRFTIME_EXT))}
         else:
             pr = {"kind": "strftime",
                   "fmt": draw(st.sampled_from(PRINT_STRFTIME))}
